@@ -5,11 +5,15 @@ from vf.explore import sched as S
 from vf.harness import use_world, outcome
 from vf.simk.world import World, CLK_TCK
 
-SCENARIOS = {
+PROGRAMS = {
     "cpu_percent": [[("cpu_percent", False), ("cpu_percent", False)], [("cpu_percent", False), ("cpu_percent", False)]],
     "cpu_times_percent-percpu": [[("cpu_times_percent", True), ("cpu_times_percent", True)], [("cpu_times_percent", True)]],
     "mixed": [[("cpu_percent", True), ("cpu_times_percent", False), ("cpu_percent", True)], [("cpu_times_percent", False), ("cpu_percent", True)]],
 }
+# how the application named its threads is a dimension of its own: the default names, or every worker created with the same
+# explicit name (Thread(target=..., name="sampler")): a thread's name is not its identity, each one keeps its own history
+NAMING = {"": None, "+same-name": "sampler"}
+SCENARIOS = {k + sfx: v for k, v in PROGRAMS.items() for sfx in NAMING}
 
 
 def snap(n, ncpu=2):
@@ -61,8 +65,13 @@ class Harness:
         w.hook = hook
         w.logging = False
 
+        tname = NAMING["+" + self.scn.split("+", 1)[1] if "+" in self.scn else ""]
+
         def mk(prog):
             def body():
+                if tname is not None:
+                    import threading
+                    threading.current_thread().name = tname
                 for name, percpu in prog:
                     ev.append(("start", sc.current(), name, percpu))
                     o = outcome(getattr(ps, name), interval=None, percpu=percpu)
@@ -108,6 +117,14 @@ def judge(x):
                 continue
             if key in last:
                 a, b = last[key], reads[-1]
+            elif len(reads) < 2:
+                # first call of this thread for this stream: it has no previous sample of its own, so it must take one
+                out.append(("not-measured-against-own-previous-sample:%s" % name,
+                            "thread %s %s(percpu=%s): first call of the thread took no baseline of its own (reads in this call %r), "
+                            "got %r" % (th, name, percpu, reads, o[1])))
+                if reads:
+                    last[key] = reads[-1]
+                continue
             else:
                 a, b = reads[-2], reads[-1]     # (an earlier read may be the one-off column-layout detection)
             last[key] = reads[-1]
@@ -151,6 +168,9 @@ def run_s(ctx):
     tot = {"executions": 0, "points": 0}
     viols, per, distinct = [], {}, 0
     for scn in SCENARIOS:
+        if not ctx.thorough and scn == "mixed+same-name":
+            continue        # (quick tier: the same-name naming on the two single-function scenarios, which cover both functions
+            #                  and both forms; the thorough tier runs every scenario under every naming)
         h = Harness(scn)
         root = h.run([])
         for cause, msg in judge(root):
